@@ -35,6 +35,31 @@ BUILT = {
  "C11": ("exploration", "bounded-exhaustive enumeration of expression trees (every constructor in every operand position up to 2/3 operator nodes) and every bundled definition, print -> parse round trip on three printers",
          "Every tree with <=2 (thorough <=3) operator nodes over 22 constructors is parsed, printed by Display / serde ExprString / ExprReply and re-parsed; all bundled definition expressions too.",
          "ExprReply parts joined by single spaces; inexact numerals excluded as the statement says", "3/C11"),
+
+ "C04": ("exploration", "bounded-exhaustive input-space enumeration (token soups, single-deviation mutations, ladders, all short strings, grammar trees) on the real evaluator in watchdog-guarded worker processes, plus the real CLI binary",
+         "Every token sequence up to length 3/4 over a 68-token alphabet, every single-character deviation of every test/manual query, depth/length ladders to 500 characters, all 1-2(3)-character strings and small expression trees (also as conversion targets) are evaluated and rendered in all three output forms under catch_unwind, an 8 MiB stack, a 2 GiB address space and a per-case watchdog; the same inputs are fed to the real `rink -f -`.",
+         "inputs outside the alphabets (longer soups, multi-deviation mutations) are out of reach; expensive inputs are classified by a static textual rule", "3/C04"),
+ "C06": ("exploration", "exhaustive enumeration of every unit x SI-prefix-boundary magnitudes x powers, all base-unit products, conversion-target shapes, digit/base modes and substances; printed parts read back with an independent numeral reader and Context::lookup",
+         "Every numeric reply over the swept space is decomposed into numeral, factor, divfactor and printed unit names; numeral x factor x product of the names (read back the way rink reads names) must equal the quantity computed from the registry dump.",
+         "temperature-scale replies are C10's; float-valued units skipped", "3/C06"),
+ "C12": ("exploration", "exhaustive enumeration of all 5040 permutations of dependency-closed definition subsets, bundled-database reorders/rotations, and all file-split assignments through the real binary, comparing whole-registry dumps",
+         "All permutations of dependency-closed 7-subsets of an 18-definition pool, the bundled database reversed/sorted/dependency-reversed/rotated, and a 6-definition extension set split over two files in all assignments (real `rink --dump`) must yield byte-identical registry dumps and identical error multisets.",
+         "duplicated names in the shipped file are reduced to their last occurrence first (premise of the statement)", "3/C12"),
+ "C13": ("exploration", "deviation-bounded exhaustive enumeration of file mutations, definition token soups, dependency cycles/chains, malformed substances, JSON truncations/edits and date-pattern soups against the real loaders under watchdog",
+         "0 and every single deviation of the bundled files, every definitions file of <=4/5 tokens, cycles of length 1..5000 through six namespace shapes, chains to 10000, every truncation and field edit of the currency JSON: the load must terminate without panic/abort, report what the harness can prove is a problem, and leave a usable context.",
+         "nesting deeper than realistic files is out of scope; reporting clause judged only where provable", "3/C13"),
+ "C14": ("exploration", "exhaustive enumeration of boundary instants x pattern forms x zone spellings, durations, all zone names and all +-HH:MM offsets against own proleptic-Gregorian arithmetic",
+         "Every boundary instant in 10 pattern forms and 11 zone spellings, (d+t)-d and (d-t)+t for 26 whole-nanosecond durations, all ordered pairs of a core of instants, every chrono-tz zone and every +-HH:MM offset (HH,MM 00..99) as conversion target.",
+         "chrono-tz zone data trusted for named-zone offsets; sub-minute LMT offsets skipped", "3/C14"),
+ "C15": ("model_checking", "explicit-state exploration of all query histories up to a depth bound (and a de Bruijn sequence on one long-lived context) on the real Context against a one-register model, every transition executed on the implementation",
+         "All histories over a 16-query alphabet to depth 3 (thorough 4) with the flag on and off are replayed on freshly loaded real contexts; at every transition the reply must equal that of a pristine context (shared reference) with the model's register preset, ans must equal the register, and the database must be unchanged.",
+         "model register is fed from the pristine context's replies; full registry dumps compared at history ends", "3/C15"),
+ "C16": ("exploration", "exhaustive enumeration of every substance x property x amounts (forward, inverse, wrong dimension, scaling) and of formulas over every element symbol against exact rational reference",
+         "Every property of every substance for 5 amounts in both directions, scaling by k and 1/k, every element symbol with boundary counts, symbol pairs, compounds and near-miss strings.",
+         "ambiguously named properties skipped (statement's restriction); intensive properties in listings not judged", "3/C16"),
+ "C17": ("exploration", "exhaustive enumeration of every named quantity / registry dimensionality / small base-unit product in three spellings for `units for` and `factorize` against the registry dump",
+         "For each dimensionality the listed units must equal the dump's non-alias units of that exponent vector under their categories, and every factorization must multiply out; answers must not depend on the spelling.",
+         "factorize explored up to a complexity bound", "3/C17"),
 }
 
 NOT_YET = {}
